@@ -15,15 +15,15 @@ THEOREMS = [
     "GoaktVerif.C41.read_none",
     "GoaktVerif.C41.rejects",
     "GoaktVerif.C41.step_ok",
+    "GoaktVerif.C41.handleGet_tombed",
     "GoaktVerif.C41.reach_inv",
-    "GoaktVerif.C41.C41_partial",
-    "GoaktVerif.C41.C41_refuted",
+    "GoaktVerif.C41.C41_holds",
 ]
 INPKG = ["actor/zz_verif_c41.go"]
 TIMEOUT = 900
 MANIFEST = {
-    "level_text": "Kernel-checked theorems over an executable model of the replicator's message handlers (abstract CRDT values, any Modify closure, clock and peers' answers as inputs): for EVERY sequence of update/delete/delta/tombstone/full-state/digest/batch/read-request/prune/local-Get messages, a tombstoned key is absent from the store (reach_inv, step_inv), reads of it answer nothing (read_none), updates/deltas/full-state entries for it are rejected (rejects), and the tombstone disappears only by a prune tick with now-deletedAt > ttl (step_keeps, prune_expires). The full statement is REFUTED for the current code (C41_refuted): a Get with ReadFrom != 0 stores the peers' answer for a tombstoned key. The model is tied to the code by driving real replicator actors message by message and comparing full state dumps.",
-    "level_note": "Partial: proved for all message sequences without coordinated Gets; coordinated Get is a proved counterexample (finding C41-F1, fix proposed). Trusted: harness (in-memory network: collector actor as topic actor, fake cluster view and remoting that Ask the peer replicators), the tombstone-ageing accessor standing for the wall clock (time.Now() cannot be injected; ageing every deletedAt by d is equivalent to advancing the clock by d for handlePrune's comparison), G-counter as the only CRDT type in the scripts. Not modelled: watchers/notifications, metrics, snapshot restore (tombstones are not persisted: a restarted replicator forgets them), write coordination's extra direct sends, undecodable keys.",
+    "level_text": "Kernel-checked theorems over an executable model of the replicator's message handlers (abstract CRDT values, any Modify closure, clock and peers' answers as inputs): for EVERY sequence of update/delete/delta/tombstone/full-state/digest/batch/read-request/prune/local and coordinated Get messages, a tombstoned key is absent from the store (reach_inv, step_inv), reads of it answer nothing — coordinated reads included, whatever the peers answer (read_none, handleGet_tombed) —, updates/deltas/full-state entries for it are rejected (rejects), and the tombstone disappears only by a prune tick with now-deletedAt > ttl (step_keeps, prune_expires); C41_holds is the full statement. The model is tied to the code by driving real replicator actors message by message and comparing full state dumps.",
+    "level_note": "Full statement proved for the current code (after fix eb69dd7; seeded/C41-revert-fix shows the check catching the original defect). Trusted: harness (in-memory network: collector actor as topic actor, fake cluster view and remoting that Ask the peer replicators), the tombstone-ageing accessor standing for the wall clock (time.Now() cannot be injected; ageing every deletedAt by d is equivalent to advancing the clock by d for handlePrune's comparison), G-counter as the only CRDT type in the scripts. Not modelled: watchers/notifications, metrics, snapshot restore (tombstones are not persisted: a restarted replicator forgets them), write coordination's extra direct sends, undecodable keys.",
     "technique": "Lean 4 inductive invariant over all message sequences of an executable state-machine model + per-message differential against real replicator actors (E4/E2)",
 }
 TRUSTED = [
@@ -40,7 +40,7 @@ KEYS = ["k0", "k1", "k2"]
 
 def scenarios():
     out = []
-    for probe in ["u:0:k0:1", "s:0:0", "s:0:1", "b:0:0", "b:0:0,3", "g:0:k0", "q:0:k0", "p:0", "s:0:3", "t:0:k0:0:1", "a:1:0", "s:0:2"]:
+    for probe in ["u:0:k0:1", "s:0:0", "s:0:1", "b:0:0", "b:0:0,3", "g:0:k0", "q:0:k0", "p:0", "s:0:3", "t:0:k0:0:1", "a:1:0", "s:0:2", "G:0:k0"]:
         # r1 writes k0 (log 0 = delta), r1's full state is logged (log 1), r0 writes k0 (log 2) and deletes it
         # (log 3 = tombstone); then the probe; then reads, a fresh anti-entropy round (log 4) and reads again
         out.append(f"n=2 ttl=3 u:1:k0:2 a:0:1 u:0:k0:1 d:0:k0 {probe} g:0:k0 q:0:k0 a:0:1 s:0:4 g:0:k0 a:1:0")
@@ -94,7 +94,7 @@ def gen_cases(rng, tier):
     cases = scenarios()
     nrand = 220 if tier == "quick" else 6000
     for i in range(nrand):
-        pG = 0.06 if i % 8 == 0 else 0.0
+        pG = 0.06 if i % 3 == 0 else 0.0
         cases.append(rand_case(rng, rng.randint(4, 40), pG))
     return cases
 
@@ -102,7 +102,7 @@ def gen_cases(rng, tier):
 def search_cases(rng, tier):
     cases = scenarios()
     for i in range(1500 if tier == "quick" else 8000):
-        cases.append(rand_case(rng, rng.randint(4, 30), 0.0))
+        cases.append(rand_case(rng, rng.randint(4, 30), 0.08 if i % 2 else 0.0))
     return cases
 
 
@@ -183,20 +183,7 @@ def oracle(case, impl, judge):
 
 
 def classify(case, impl, why):
-    """C41-F1: the FIRST failing op is a coordinated Get (G:r:k) on a key that is tombstoned at r, and what fails
-    is the read clause (it returned data) or the absent clause (the key is stored next to its tombstone)."""
-    m = re.match(r"bad op=(\d+) tok=(G:\d+:k\d+) clause=(read|absent)$", why or "")
-    if not m:
-        return None
-    idx, tok = int(m.group(1)), m.group(2)
-    outs = impl.split()
-    if idx >= len(outs) or "@" not in outs[idx]:
-        return None
-    v = _view(outs[idx].split("@")[1])
-    k = tok.split(":")[2]
-    if v and any(k2 == k for k2, _ in v[1]) and k in v[0]:
-        return "C41-F1"
-    return None
+    return None  # no open finding (C41-F1 fixed by eb69dd7)
 
 
 def shrink(case):
